@@ -2,6 +2,7 @@ package settle
 
 import (
 	"fmt"
+	"os"
 	"math/rand"
 	"sort"
 	"strings"
@@ -67,6 +68,9 @@ func RunProperty(prop string, c04 bool, seed int64, tier, out string) {
 			if strings.Contains(n, "deadline") || strings.Contains(n, "context") {
 				res.Warnings = append(res.Warnings, fmt.Sprintf("scenario %d: %s | %s", i, n, scs[i].String()))
 			}
+		}
+		if os.Getenv("VERIF_DUMP") != "" {
+			fmt.Printf("=== %d %s\n%s\n", i, scs[i].String(), Describe(r))
 		}
 		outcome := fmt.Sprintf("settled=%v%v", r.Settled[0], r.Settled[1])
 		res.Count(class, outcome, class+"/"+outcome+"/"+shape(r), false)
